@@ -242,7 +242,17 @@ def pick_options(L, rng, workdirs, args, index, allowed=None):
         td = L.vol_path(tv, rng.choice(['mytrash', 'deep/er/trash', '.Trash-x']))
         if rng.random() < 0.4:
             L.add(world.ensure_trash_dirs(td))
-        opts += ['--trash-dir', '@/' + td]
+        spelled = td
+        if rng.random() < 0.3:
+            # the directory named through a symlink (possibly one that lives
+            # on another volume than its target): the path AS GIVEN is what
+            # list/restore will be given too
+            lv = rng.choice(vols)
+            L.add({'p': td, 't': 'd', 'm': 0o700})
+            spelled = L.vol_path(lv, 'to-my-trash-%d' % index)
+            L.add({'p': spelled, 't': 'l', 'to': '@/' + td})
+            optclass = '--trash-dir'
+        opts += ['--trash-dir', '@/' + spelled]
     elif optclass == '--home-fallback':
         opts.append('--home-fallback')
         if rng.random() < 0.6:
@@ -474,6 +484,19 @@ def gen_case(rng, index, tier):
     if any(not a['spelling'] for a in args):
         return None
     return case
+
+
+def trash_dir_base(case, w, tdir_abs):
+    """the directory against which a relative Path= of an entry in tdir_abs
+    is to be read: the volume of the trash dir AS THE USER NAMED IT (for a
+    --trash-dir reached through a symlink that is the volume of the link,
+    which is what trash-list/-restore --trash-dir <same path> use too), and
+    the path to hand to the readers"""
+    if '--trash-dir' in case.get('opts', []):
+        given = world.subst(case['opts'][case['opts'].index('--trash-dir') + 1], w.R)
+        if os.path.realpath(given) == os.path.realpath(tdir_abs):
+            return spec.volume_of(os.path.normpath(given), w.mounts), given
+    return spec.volume_of(os.path.realpath(tdir_abs), w.mounts), tdir_abs
 
 
 def designated(w, cwd, spelling):
